@@ -715,7 +715,7 @@ class Judge:
             e = base["exc"]
             ok404 = "nonexistent-folder" in rs["tags"] and e["req"] and e["status_code"] == 404
             if not ok404:
-                self._viol(case, ri, f"C18:{api}:{feature if feature == 'clean' else feature}:fault-free-call-raised",
+                self._viol(case, ri, f"C18:{api}:clean:fault-free-call-raised",
                            f"{api} on a healthy transport raised {e['type']}: {e['msg']}", rep0)
             run.case(["fault-free", api, sig_tags, "raised:" + e["type"]])
             return
@@ -911,6 +911,9 @@ def main(run):
 
 
 def replay(run, doc):
+    import logging
+
+    logging.disable(logging.CRITICAL)
     case = doc.get("case", doc)
     only = [[case["k"], case["kind"]]] if "k" in case else None
     if only and case["kind"] in RISKY_KIND:
